@@ -440,11 +440,18 @@ def c08(ck):
                 meta[cid] = (mod, c, mname, fs, kind, mode, args)
         # raw requests: missing / ill-typed parameters must be answered with InvalidParameter
         for mname, fs, kind in names[:(6 if quick else len(names))]:
-            for badp in ({}, {"v": [{"zz": 1}]}, {"v": "wrong"} if fs[0][1][0] != "string" and fs[0][1][0] != "object" and fs[0][1] != ("name", "E") and fs[0][1][0] != "option" else {"v": 12.5}, None):
-                if fs[0][1][0] in ("object",) or (fs[0][1][0] == "option" and badp in ({}, None)):
-                    continue
-                if fs[0][1][0] == "option" and fs[0][1][1][0] == "object":
-                    continue
+            ft = fs[0][1]
+            for badp in ({}, {"v": [{"zz": 1}]}, {"v": "wrong"}, {"v": 12.5}, {"v": True}, None):
+                # a probe counts only if it is ill-typed by the IDL: parameters absent or empty while v is required,
+                # or a value of v that the type does not admit (and that serde's documented leniencies cannot accept)
+                if badp in ({}, None):
+                    if ft[0] == "option":
+                        continue
+                else:
+                    if c08gen.well_typed(ft, badp["v"], c.env):
+                        continue
+                    if isinstance(badp["v"], list) and c08gen.contains_lenient(ft, c.env):
+                        continue
                 r = {"method": "%s.%s" % (c.iface, mname)}
                 if badp is not None:
                     r["parameters"] = badp
